@@ -43,7 +43,7 @@ CHECKS = {
         'is a machine-checked reachable stuck state. Tied to the code on every run: the stamped hook log of random and forced concurrent scenarios is replayed label '
         'by label on both models, and API-level acceptors (one in flight, blocking Publish returns only after Acks) judge the implementation histories.'),
   note=('Trusted: Coq kernel + vm_compute; Go runtime semantics of mutex/RWMutex/channel/select as modelled; hook stamp discipline + Python mapper; Monitor.v acceptors. '
-        'The one-in-flight acceptor is proved sound for the model (C05_one_in_flight_acceptor_sound). Partial: "blocking Publish returns" is refuted in general (D9, known finding) and not proved under a side condition for blocking mode; per-publisher FIFO is an acceptor on the implementation only.'),
+        'The one-in-flight acceptor is proved sound for the model (C05_one_in_flight_acceptor_sound). "Blocking Publish returns" is refuted in general (D9, known finding) and proved over the composed system registry x one send protocol per subscription under a Nack budget with no writer pending and no new Publish/Subscribe/cancel/Close (C05_blocking_returns_composed, a combined measure); per-publisher FIFO is proved over the composition at state level (C05_blocking_fifo_composed) and judged on the implementation by an acceptor whose whole-history soundness is not proved.'),
   technique='Coq proof (invariants over thread-level LTSs, refutation witnesses by vm_compute) + schedule-replay correspondence check + executable API acceptors',
   design_ref='DESIGN.md section 7 C04/C05/C11/C07'),
 }
